@@ -109,6 +109,11 @@ def check_imposed(ctx, case):
             x = F(kx, fx[0], fx[1], fx[2], raw=True, rounding=mx[0], overflow=mx[1])
             y = F(ky, fy[0], fy[1], fy[2], raw=True, rounding=my[0], overflow=my[1])
             T = F(None, ft[0], ft[1], ft[2], rounding=mt[0], overflow=mt[1])
+            if case.get('dirty') and variant == 'out_like':
+                # the template already carries raised flags: a result built like it starts from a clean record
+                T(1e30)
+                T(-1e30)
+                T(0)
             if case.get('route') == 'config':
                 if variant == 'out':
                     x.config.op_out = T
@@ -276,6 +281,7 @@ def st_case(draw):
         case['ft'] = list(draw(st.sampled_from(fl + fmts_c08(20, 13))))
         case['mt'] = list(draw(C.st_modes()))
         case['route'] = draw(st.sampled_from(['kwarg', 'config']))
+        case['dirty'] = draw(st.booleans())
     return case
 
 
